@@ -33,6 +33,10 @@ def gen_two_printers_unit(rng):
             if where == "s":
                 r["s"] = k
                 r["obj"] = {"v": k}
+            if rng.random() < 0.4:
+                # values that differ only in where a nested object ends (a careless fingerprint takes them for one value)
+                r["obj"] = rng.choice(eg.TWINS)
+                r["nest"] = rng.choice(eg.TWINS)
             out.append(jm.dumps(r))
         return out
     sel = rng.sample(["--select=(stringify .obj)=jo", "--select=.nest=nn", "--select=.obj=oo", "--select=(stringify .nest)=jn", "--select=(concat \"\" .s)=cs",
@@ -41,9 +45,32 @@ def gen_two_printers_unit(rng):
     return {"args": sel + out, "A": recs(rng.choice((1, 2, 4))), "B": recs(rng.choice((1, 2, 4))), "headers": ("csv" in out or "--headers" in out), "funcs": ["stringify"]}
 
 
+def gen_churn_unit(rng):
+    """More distinct formats / patterns in one run than any plausible cache holds, then the early ones again: what a function
+    makes of (text, format) does not depend on how many other formats went through it before."""
+    import datetime
+    dates = ["%Y-%m-%d", "%d/%m/%Y", "%m.%d.%Y", "%Y%m%d", "%d-%m-%Y", "%Y/%m/%d", "%y-%m-%d"]
+    seps = [" ", "T", "_", "@", " at "]
+    times = ["%H:%M:%S", "%H.%M.%S", "%H%M%S", "%T", "%H:%M"]
+    fmts = [d + s + t for d in dates for s in seps for t in times]
+    rng.shuffle(fmts)
+
+    def rec(f):
+        dt = datetime.datetime(rng.randint(1971, 2035), rng.randint(1, 12), rng.randint(1, 28), rng.randint(0, 23), rng.randint(0, 59), rng.randint(0, 59))
+        return jm.dumps({"d": dt.strftime(f.replace("%T", "%H:%M:%S")), "fmt": f, "p": "^" + f[:6].replace("%", "x") + "$"})
+    n = rng.choice((66, 70, 130, 175))
+    A = [rec(f) for f in fmts[:n]]
+    B = [rec(f) for f in (fmts[:8] + rng.sample(fmts[:n], 8))]
+    sel = rng.choice([["--select=(parse_time .d .fmt)=t"], ["--select=(parse_time .d .fmt)=t", "--select=(format_time (parse_time .d .fmt) .fmt)=back"],
+                      ["--select=(match .fmt .p)=m", "--select=(parse_time .d .fmt)=t"]])
+    return {"args": sel + ["--regular-expression-cache-size", str(rng.choice((0, 1, 2, 64)))], "A": A, "B": B, "headers": False, "funcs": ["parse_time"]}
+
+
 def gen_unit(rng):
     if rng.random() < 0.04:
         return gen_two_printers_unit(rng)
+    if rng.random() < 0.01:
+        return gen_churn_unit(rng)
     g = eg.Gen(rng, ill_typed=0.08, maxdepth=3)
     sc = eg.Scope()
     args = []
